@@ -113,6 +113,19 @@ def stmt_events(wrk, func, stmt_or_expr, env_txt, task_txt, lexctx,
                 events.append(Event('S', call, ('const', cname[4:].upper()),
                                     region, cond, where))
                 continue
+            if cname == 'apply' and len(call.args) == 1:
+                carried = status_carried_by(program, func, call.args[0])
+                if carried is not None:
+                    # the update handed to Env.apply also holds the task's
+                    # final status: status and payload are published by
+                    # one call, which is atomic only if Env.apply holds the
+                    # lock over the WHOLE update
+                    atomic = apply_is_atomic(program)
+                    reg = ('apply-atomic', id(call)) if atomic else None
+                    events.append(Event('S', call, carried, reg, cond,
+                                        where))
+                    events.append(Event('P', call, None, reg, cond, where))
+                    continue
             if cname in PRIMITIVE_ENV_P:
                 events.append(Event('P', call, None, region, cond, where))
                 continue
@@ -180,6 +193,105 @@ def stmt_events(wrk, func, stmt_or_expr, env_txt, task_txt, lexctx,
                     events.append(Event('P', stmt_or_expr, None, region,
                                         cond, func.where(stmt_or_expr)))
     return events
+
+
+def apply_is_atomic(program):
+    '''Env.apply publishes the whole update inside ONE `with self.lock`
+    region: no lock statement of its own body is nested in a loop.'''
+    meth = program.maybe_func('valjean.cosette.env:Env.apply')
+    if meth is None:
+        return False
+    parents = enclosing_chain(meth.node)
+    locks = []
+    for node in ast.walk(meth.node):
+        if isinstance(node, ast.With) and any(
+                dotted(i.context_expr) == 'self.lock' for i in node.items):
+            inner_def = lexically_inside(
+                parents, node, lambda n: isinstance(
+                    n, (ast.FunctionDef, ast.Lambda)) and n is not meth.node)
+            if inner_def is not None:
+                continue
+            in_loop = lexically_inside(
+                parents, node, lambda n: isinstance(
+                    n, (ast.For, ast.While, ast.ListComp, ast.GeneratorExp)))
+            locks.append(in_loop is None)
+    return bool(locks) and all(locks)
+
+
+def status_carried_by(program, func, expr, depth=0):
+    '''If the mapping `expr` (argument of Env.apply) is built with a
+    'status' entry, the expression of that status as seen from `func`
+    (a caller expression, or ('unknown',)); else None.'''
+    if depth > 3 or expr is None:
+        return None
+    if isinstance(expr, ast.Dict):
+        for key, val in zip(expr.keys, expr.values):
+            if isinstance(key, ast.Constant) and key.value == 'status':
+                return val
+            if isinstance(val, ast.Dict):
+                res = status_carried_by(program, func, val, depth + 1)
+                if res is not None:
+                    return res
+        return None
+    if isinstance(expr, ast.Name):
+        for node in walk_local(func.node):
+            if isinstance(node, ast.Assign) and len(node.targets) == 1 and \
+                    txt(node.targets[0]) == expr.id:
+                res = status_carried_by(program, func, node.value,
+                                        depth + 1)
+                if res is not None:
+                    return res
+            # name[...]['status'] = v   /  name[...].update(status=v)
+            if isinstance(node, ast.Assign) and isinstance(
+                    node.targets[0], ast.Subscript):
+                tgt = node.targets[0]
+                base = tgt
+                while isinstance(base, ast.Subscript):
+                    base = base.value
+                if txt(base) == expr.id and isinstance(
+                        tgt.slice, ast.Constant) and \
+                        tgt.slice.value == 'status':
+                    return node.value
+        return None
+    if isinstance(expr, ast.Call):
+        cands, how = program.resolve_call(func, expr)
+        if len(cands) != 1 or how == 'by-unique-name':
+            return None
+        callee = cands[0]
+        found = None
+        for node in ast.walk(callee.node):
+            if isinstance(node, ast.keyword) and node.arg == 'status':
+                found = node.value
+            elif isinstance(node, ast.Dict):
+                for key, val in zip(node.keys, node.values):
+                    if isinstance(key, ast.Constant) and \
+                            key.value == 'status':
+                        found = val
+            elif isinstance(node, ast.Assign) and isinstance(
+                    node.targets[0], ast.Subscript) and isinstance(
+                        node.targets[0].slice, ast.Constant) and \
+                    node.targets[0].slice.value == 'status':
+                found = node.value
+        if found is None:
+            return None
+        # map a parameter of the helper back to the caller's argument
+        if isinstance(found, ast.Name):
+            params = callee.params
+            static = any(txt(d) == 'staticmethod'
+                         for d in callee.node.decorator_list)
+            offset = 0 if static or how in ('name', 'dotted') else 1
+            if found.id in params:
+                pos = params.index(found.id) - offset
+                if 0 <= pos < len(expr.args):
+                    return expr.args[pos]
+                for kwd in expr.keywords:
+                    if kwd.arg == found.id:
+                        return kwd.value
+        mem = enum_member(found, 'TaskStatus')
+        if mem:
+            return found
+        return ('unknown',)
+    return None
 
 
 def _is_branchy(stmt):
